@@ -825,8 +825,20 @@ func (vm *vm) _restoreStacks(iterLen, refLen uint32, closeIters bool) (ex *Excep
 	return
 }
 
-func (vm *vm) handleThrow(arg interface{}) *Exception {
+func (vm *vm) handleThrow(arg interface{}) (ret *Exception) {
 	ex := vm.exceptionFromValue(arg)
+	if ex != nil {
+		// Unwinding for a catchable exception closes open iterators, i.e. runs script code, which may be aborted by an
+		// uncatchable error (interrupt, stack overflow). When handleThrow was entered from a recover() nobody above
+		// would unwind for that error at this level: the frame we stopped at would stay on the try stack, the
+		// boundary's deferred popTryFrame() would pop it instead of its marker and the frames of the aborted run would
+		// leak into the idle runtime. Unwind for the new error here.
+		defer func() {
+			if x := recover(); x != nil {
+				ret = vm.handleThrow(x)
+			}
+		}()
+	}
 	for len(vm.tryStack) > 0 {
 		tf := &vm.tryStack[len(vm.tryStack)-1]
 		if tf.catchPos == -1 && tf.finallyPos == -1 || ex == nil && tf.catchPos != tryPanicMarker {
